@@ -1,5 +1,5 @@
 """C14 — observables are recorded exactly at their requested times (structural clauses)."""
-from ..rules import adapter, once
+from ..rules import drivers, adapter, once
 
 META = {
     "title": "Observables are recorded exactly at their requested times",
@@ -31,3 +31,5 @@ def check(ctx):
     adapter.merge_close_times(ctx)
     ctx.floor("ONCE", 8)
     ctx.floor("TIMEEQ", 2)
+    once.filter_tolerance(ctx)
+    drivers.run_loops(ctx)
